@@ -368,6 +368,22 @@ def _c06(case, exe, work, res):
                     viols.append({"property": "C06", "invariant": "retrieval-contract",
                                   "detail": f"event {d['id']}: token declared for {tok_type} used to fetch {t}"})
         if d["status"] == "OK":
+            # an occurrence inside the predicate applied to every element of an (unconditional, unfiltered) collection is
+            # fetched once per element: count the fetches
+            for o in case["query"]["occurrences"]:
+                pe = o.get("per_element_of")
+                if not pe:
+                    continue
+                n_outer = d["sizes"].get(f"{pe[0]}|{pe[1]}")
+                if n_outer is None:
+                    continue
+                n_got = sum(1 for a2, t2, b2 in got if (t2, b2) == (o["type"], o["bank"]) and a2 != "contains")
+                same = [pe[0], pe[1]] == [o["type"], o["bank"]]
+                need = n_outer + (1 if same else 0)
+                if n_got < need:
+                    viols.append({"property": "C06", "invariant": "retrieval-contract",
+                                  "detail": f"event {d['id']}: ({o['type']}, {o['bank']!r}) is asked for inside the predicate applied to each of the "
+                                            f"{n_outer} elements of ({pe[0]}, {pe[1]!r}) but was fetched only {n_got} time(s) (at least {need} expected)"})
             missing = required - {(t, bnk) for _, t, bnk in got}
             if missing:
                 viols.append({"property": "C06", "invariant": "retrieval-contract",
